@@ -134,6 +134,64 @@ theorem ptrOK_fileSeek (segs : List Seg) (p : Ptr) (off : Nat) (h : PtrOK segs p
   · exact h
   · left; rfl
 
+/-- the handle's offset after filehandle.Seek(off, whence) at `pos` in a file of `size` bytes: the target,
+or `pos` again when the target is negative (the call fails and changes nothing) -/
+def seekPos (size pos : Nat) (w : Whence) (off : Int) : Nat :=
+  if seekTarget size pos w off < 0 then pos else (seekTarget size pos w off).toNat
+
+theorem fileSeekW_off (size : Nat) (p : Ptr) (w : Whence) (off : Int) :
+    (fileSeekW size p w off).1.off = seekPos size p.off w off := by
+  unfold fileSeekW seekPos
+  by_cases h : seekTarget size p.off w off < 0
+  · simp [h]
+  · simp only [h, if_false]
+    split <;> simp_all
+
+/-- what Seek reports is the handle's new offset; it fails exactly for a negative target -/
+theorem fileSeekW_pos (size : Nat) (p : Ptr) (w : Whence) (off : Int) :
+    ((fileSeekW size p w off).2 = none ↔ seekTarget size p.off w off < 0) ∧
+    (∀ n, (fileSeekW size p w off).2 = some n → (fileSeekW size p w off).1.off = n ∧
+      (n : Int) = seekTarget size p.off w off) ∧
+    ((fileSeekW size p w off).2 = none → (fileSeekW size p w off).1 = p) := by
+  unfold fileSeekW
+  by_cases h : seekTarget size p.off w off < 0
+  · simp [h]
+  · simp only [h, if_false]
+    have hnn : 0 ≤ seekTarget size p.off w off := by omega
+    split
+    · rename_i heq
+      refine ⟨by simp, ?_, by simp⟩
+      intro n hn
+      simp at hn
+      subst hn
+      exact ⟨rfl, by omega⟩
+    · refine ⟨by simp, ?_, by simp⟩
+      intro n hn
+      simp at hn
+      subst hn
+      exact ⟨rfl, by omega⟩
+
+/-- Seek with any whence keeps the pointer invariant: either nothing changed or the pointer is stale -/
+theorem ptrOK_fileSeekW (segs : List Seg) (size : Nat) (p : Ptr) (w : Whence) (off : Int) (h : PtrOK segs p) :
+    PtrOK segs (fileSeekW size p w off).1 := by
+  unfold fileSeekW
+  simp only
+  split
+  · exact h
+  · split
+    · exact h
+    · left; rfl
+
+/-- SeekStart with a non-negative offset is the `fileSeek` used so far -/
+theorem fileSeekW_start (size : Nat) (p : Ptr) (off : Nat) :
+    fileSeekW size p .start (off : Int) = (fileSeek p off, some off) := by
+  unfold fileSeekW fileSeek seekTarget
+  have h : ¬ ((off : Int) < 0) := by omega
+  simp only [h, if_false, Int.toNat_natCast]
+  split
+  · rename_i heq; simp [heq]
+  · rfl
+
 theorem seek_ge (segs : List Seg) (p : Ptr) (hge : fileSize segs ≤ p.off) :
     seek segs p = some { p with idx := segs.length, segOff := 0, stale := false } := by
   simp [seek, hge]
@@ -297,14 +355,17 @@ theorem fileRead_before_end (blocks : Nat → Bytes) (segs : List Seg) (hin : Se
 inductive FOp where
   | read (n : Nat)
   | seek (off : Nat)
+  | seekW (w : Whence) (off : Int)
 deriving Repr, DecidableEq
 
-/-- A handle's life: filehandle.Read / filehandle.Seek(off, SeekStart) calls in sequence, threading
-the handle's pointer; the results of the Read calls. -/
+/-- A handle's life: filehandle.Read / filehandle.Seek(off, whence) calls in sequence (`seek off` =
+SeekStart with a non-negative offset; `seekW` = any whence, any signed offset), threading the handle's
+pointer; the results of the Read calls. -/
 def runFile (segRead : Seg → Nat → Nat → Bytes × Option Err) (segs : List Seg) :
     Ptr → List FOp → Option (List (Bytes × Option Err))
   | _, [] => some []
   | p, .seek off :: rest => runFile segRead segs (fileSeek p off) rest
+  | p, .seekW w off :: rest => runFile segRead segs (fileSeekW (fileSize segs) p w off).1 rest
   | p, .read n :: rest =>
     match fileRead segRead segs p n with
     | none => none
@@ -318,6 +379,7 @@ position is at or beyond the end. -/
 def Follows (content : Bytes) : Nat → List FOp → List (Bytes × Option Err) → Prop
   | _, [], rs => rs = []
   | _, .seek off :: ops, rs => Follows content off ops rs
+  | pos, .seekW w off :: ops, rs => Follows content (seekPos content.length pos w off) ops rs
   | _, .read _ :: _, [] => False
   | pos, .read n :: ops, (d, e) :: rs =>
     d = (content.drop pos).take d.length ∧ d.length ≤ n ∧
@@ -340,6 +402,11 @@ theorem runFile_follows (blocks : Nat → Bytes) (segs : List Seg) (hin : SegsIn
       have hoff : (fileSeek p off).off = off := by
         unfold fileSeek; split <;> simp_all
       rw [hoff] at h2
+      simpa [Follows] using h2
+    | seekW w off =>
+      obtain ⟨rs, h1, h2⟩ := ih (fileSeekW (fileSize segs) p w off).1 (ptrOK_fileSeekW segs _ p w off hok)
+      refine ⟨rs, by simpa [runFile] using h1, ?_⟩
+      rw [fileSeekW_off, ← hclen] at h2
       simpa [Follows] using h2
     | read n =>
       by_cases hlt : p.off < fileSize segs
